@@ -186,3 +186,25 @@ def run(out, tier, rng, work):
     sprop.run_stateful(out, 'C10', tier, rng, work, FILES, gen, oracle, 80, 1500, nontrivial, runner=runner,
                        sample=lambda sc, res: dict(dll=sc.get('dll'), history=[(e['a'][1], e['a'][2], e.get('outcome')) for e in sc['script'] if e.get('hist')][:6],
                                                    final_returns=[r for ev, r in res.returns if ev.get('final')]))
+
+    # two nodes sending connection-mode messages to EACH OTHER at overlapping times: the two directions are two connections, the
+    # one does not take capacity from the other — both are accepted and both are delivered (both layers)
+    import scen as _scen, oracle_tp as _otp
+    for k in range(8 if tier == 'quick' else 80):
+        dll = 'j1939-21' if k % 2 == 0 else 'j1939-22'
+        unit = 7 if dll == 'j1939-21' else 60
+        a, b = rng.sample([0x10, 0x20, 0x00, 0x81, 0xF0], 2)
+        sc = dict(stacks=[dict(dll=dll, max_cmdt=rng.choice([1, 2, 255]), subs=[dict(cid=1, filt=a)], cas=[]),
+                          dict(dll=dll, max_cmdt=rng.choice([1, 3, 255]), subs=[dict(cid=2, filt=b)], cas=[])],
+                  lat=[rng.choice([1, 500, 2000])], jit=[1],
+                  script=[dict(t=1000, s=0, op='send', a=[0, 0xD0, b, 6, a, dict(seed=rng.getrandbits(20), len=unit * rng.randint(4, 9) - rng.randint(0, unit - 1))]),
+                          dict(t=1000 + rng.choice([0, 700, 3000, 9000]), s=1, op='send', a=[0, 0xD1, a, 6, b, dict(seed=rng.getrandbits(20), len=unit * rng.randint(2, 6) - rng.randint(0, unit - 1))])],
+                  horizon=4_000_000, meta=dict(kind='crossing-transfers', dll=dll))
+        res = _scen.run(sc)
+        out.add_case(_scen.sc_hash(sc), True)
+        v = [dict(kind='send-refused-while-the-peer-is-sending-to-us', call=ev['a'][:5], ret=str(r)) for ev, r in res.returns if ev['op'] == 'send' and r is not True]
+        v += _otp.check_exactly_once(sc, res)
+        for x in v[:1]:
+            out.violation('%s (two nodes sending to each other): %s' % (x['kind'], str(x)[:250]), dict(kind=x['kind']),
+                          dict(broke='oracle', scenario=sc, violation=x, scenario_name='crossing-transfers'))
+            return
